@@ -553,7 +553,7 @@ class Frame:
                 return num(v)
             if t[0] == 'bool': return 'true' if v else 'false'
             return inum(v)
-        if k in ('var', 'field', 'arrow', 'elem', 'deref', 'elemx'):
+        if k in ('var', 'field', 'arrow', 'elem', 'deref', 'elemx', 'vindex'):
             return self.load(e, pc)
         if k == 'addr':
             if e[1][0] == 'call':
@@ -642,6 +642,12 @@ class Frame:
             if name in LIBM1 or name in LIBM2 or name in ('fabs', 'abs', 'floor', 'ceil', 'copysign', 'trunc', 'isnan', 'isfinite', 'hypot'):
                 av = [self.ev(a, pc) for a in args]
                 return B.libm(name, av, pc, e[3])
+            if re.match(r'^eigh[23]_', name):
+                av = [self.ev(a, pc) for a in args]
+                fn = 'f_' + name
+                B.funs[fn] = (['Real'] * len(av), 'Real')
+                B.note('Eigen::SelfAdjointEigenSolver of a 2x2 / 3x3 matrix: eigenvalues and eigenvectors are uninterpreted functions of its coefficients; the spec states the assumed contract')
+                return app(fn, *av)
             if re.match(r'^svd[23]_', name):
                 av = [self.ev(a, pc) for a in args]
                 fn = 'f_' + name
